@@ -103,7 +103,7 @@ def check_case(case):
 def run(tier):
     def extra(rep, tier_, sd):
         rng = random.Random("c09/%d" % sd)
-        n = 20 if tier_ == "quick" else 250
+        n = 30 if tier_ == "quick" else 300
         dist = Counter()
         for strategy in svc.STRATS:
             for i in range(n):
